@@ -166,6 +166,11 @@ func (s *Session) modTarget(env *Env, x Expr) []modTarget {
 		case "key":
 			// key("Name"): a whole heap entry by its internal name (libspec only)
 			if sx, ok := n.Args[0].(*EStr); ok {
+				if strings.HasSuffix(sx.V, "_$state") {
+					// the opaque state of an external struct type: make sure the entry exists so that
+					// havocking it (and the frame obligation about it) is not skipped
+					s.heapSort(sx.V, ArrSort(SInt, SInt))
+				}
 				return []modTarget{{Key: sx.V, Whole: true}}
 			}
 		}
@@ -927,6 +932,9 @@ func (s *Session) frameTerms(st *State, env *Env, keys []string) []keyedTerm {
 	for _, k := range keys {
 		if k == "$brk" || whole[k] || s.sharedKey(k) != nil {
 			continue // shared fields: writes are governed by guar/own, other threads' writes by the rely
+		}
+		if strings.HasPrefix(k, "G_scratch") {
+			continue // scratch ghosts (arbitrary before every use, meaningful only inside one function): no frame
 		}
 		so, ok := s.hsort[k]
 		if !ok {
